@@ -350,6 +350,7 @@ TEXTUAL = [
     ("C09", "tr-svd-first-core-scaled", "tensorly/decomposition/_tr_svd.py", "    factor = tl.reshape(U, (tensor_size[0], rank[0], rank[1]))", "    factor = tl.reshape(U * S, (tensor_size[0], rank[0], rank[1]))"),
     ("C09", "tr-svd-first-rank-unguarded", "tensorly/decomposition/_tr_svd.py", "    if rank[0] * rank[1] > min(n_row, n_column):", "    if False:"),
     ("C09", "hooi-core-from-untransposed-factors", "tensorly/decomposition/_tucker.py", "        core = multi_mode_dot(tensor, factors, modes=modes, transpose=True)\n\n        # The factors are orthonormal", "        core = multi_mode_dot(tensor * tl.norm(tensor, 2), factors, modes=modes, transpose=True)\n\n        # The factors are orthonormal"),
+    ("C08", "tr-svd-rank-vector-rotated-as-a-whole", "tensorly/decomposition/_tr_svd.py", "        rank = rank[mode:-1] + rank[:mode] + [rank[mode]]\n", "        rank = rank[mode:] + rank[:mode]\n"),
     ("C03", "cp-ctor-skips-validation", "tensorly/cp_tensor.py", "        shape, rank = _validate_cp_tensor(cp_tensor)\n        weights, factors = cp_tensor\n", "        weights, factors = cp_tensor\n        shape, rank = tuple(f.shape[0] for f in factors), factors[0].shape[1]\n"),
     ("C03", "tt-vec-of-other-family", "tensorly/tt_tensor.py", "    return tl.tensor_to_vec(tt_to_tensor(factors))", "    return tl.tensor_to_vec(tt_to_tensor(factors[::-1]))"),
     ("C03", "tucker-unfolded-wrong-mode", "tensorly/tucker_tensor.py", "        mode,\n    )", "        mode + 1,\n    )"),
@@ -460,6 +461,7 @@ TEXTUAL_TWINS = [
     ("C05", "flip-sign-broadcast-spelled-differently", "tensorly/tenalg/svd.py", "        U = U * signs\n        if tl.shape(V)[0] > tl.shape(U)[1]:", "        U = signs * U\n        if tl.shape(V)[0] > tl.shape(U)[1]:"),
     ("C09", "tt-svd-carry-via-dot-diag", "tensorly/decomposition/_tt.py", "        unfolding = tl.reshape(S, (-1, 1)) * V\n\n    # Getting the last factor", "        unfolding = V * tl.reshape(S, (-1, 1))\n\n    # Getting the last factor"),
     ("C09", "tt-svd-min-argument-order", "tensorly/decomposition/_tt.py", "        current_rank = min(n_row, n_column, rank[k + 1])", "        current_rank = min(rank[k + 1], n_column, n_row)"),
+    ("C08", "tr-svd-rank-rotation-via-open-ring", "tensorly/decomposition/_tr_svd.py", "        rank = rank[mode:-1] + rank[:mode] + [rank[mode]]\n", "        ring = rank[:-1]\n        ring = ring[mode:] + ring[:mode]\n        rank = ring + [ring[0]]\n"),
     ("C01", "partial-fold-del-by-position", "tensorly/base.py", "    mode_dim = transposed_shape.pop(skip_begin + mode)", "    mode_dim = transposed_shape.pop(skip_begin + mode)\n    _n_axes = len(transposed_shape)"),
 ]
 
